@@ -141,6 +141,9 @@ func (r *Recorder) Count(name string, n int64) {
 // C is the unlocked fast path for single-threaded monitors.
 func (r *Recorder) C(name string) { r.R.Counters[name]++ }
 
+// CN counts and returns the new count (for "every n-th eligible observation" sampling).
+func (r *Recorder) CN(name string) int64 { r.R.Counters[name]++; return r.R.Counters[name] }
+
 func (r *Recorder) Max(name string, v int64) {
 	if r.R.Counters[name] < v {
 		r.R.Counters[name] = v
